@@ -1,6 +1,7 @@
 package car
 
 import (
+	"errors"
 	"fmt"
 	"io"
 	"os"
@@ -143,6 +144,11 @@ func LoadIndex(idx index.Index, r io.Reader, opts ...Option) error {
 		cidLen, c, err := cid.CidFromReader(reader)
 		if err != nil {
 			return err
+		}
+		if sectionLen < uint64(cidLen) {
+			// The CID was read beyond the end of its section. Stepping back to where the section
+			// says it ends would walk through overlapping "sections", each costing a CID.
+			return errors.New("section length shorter than CID length")
 		}
 
 		if o.StoreIdentityCIDs || c.Prefix().MhType != multihash.IDENTITY {
